@@ -173,6 +173,8 @@ func boundsFor(o *core.Options) bounds {
 			b.cancelStride = n
 		} else if _, err := fmt.Sscanf(a, "limit=%d", &n); err == nil {
 			b.limitStride = n
+		} else if _, err := fmt.Sscanf(a, "k3=%d", &n); err == nil {
+			b.k3Stride, b.k3WorldsPerMod = n, 300
 		}
 	}
 	return b
@@ -197,7 +199,7 @@ type runner struct {
 }
 
 // sweep: every model (largest pool first, for load balance), every tuple subset of size <= k.
-func (x *runner) sweep(name string, models []*ref.Model, u ref.Universe, k int, limits []int, maxWorlds int, fn func(e *env, w *ref.World, modelIdx int)) {
+func (x *runner) sweep(name string, models []*ref.Model, u ref.Universe, k, minTuples int, limits []int, maxWorlds int, fn func(e *env, w *ref.World, modelIdx int)) {
 	r := x.r
 	t0 := time.Now()
 	defer func() { r.Set("phase_wall_s/"+name, time.Since(t0).Seconds()) }()
@@ -222,7 +224,7 @@ func (x *runner) sweep(name string, models []*ref.Model, u ref.Universe, k int, 
 		r.Count("models", 1)
 		worlds := 0
 		ref.Subsets(j.pool, k, func(ts []ref.Tuple) {
-			if r.Expired() {
+			if r.Expired() || len(ts) < minTuples {
 				return
 			}
 			if maxWorlds > 0 && worlds >= maxWorlds {
@@ -486,7 +488,7 @@ func Run(o *core.Options) int {
 	r.Set("main_sweep_model_stride", b.stride)
 	r.Set("max_tuples", b.k)
 	if b.stride > 1 {
-		r.Set("bound_note", fmt.Sprintf("quick runs every %d-th signature class of the family (thorough: all classes, 2 models per class)", b.stride))
+		r.Set("bound_note", fmt.Sprintf("quick runs every %d-th signature class of the family (thorough: all classes, 2 models per class, plus |T|=3 on every 24th class capped at 2000 worlds per model)", b.stride))
 	}
 
 	for _, a := range o.Args {
@@ -511,7 +513,7 @@ func Run(o *core.Options) int {
 			return 0
 		}
 	}
-	x.sweep("main", main, ref.DefaultUniverse(), b.k, []int{0}, 0, func(e *env, w *ref.World, idx int) {
+	x.sweep("main", main, ref.DefaultUniverse(), b.k, 1, []int{0}, 0, func(e *env, w *ref.World, idx int) {
 		if len(w.Tuples) == 0 {
 			return
 		}
@@ -527,7 +529,7 @@ func Run(o *core.Options) int {
 		lim = every(reps, b.limitStride)
 	}
 	r.Set("limit_sweep_models", len(lim))
-	x.sweep("limit", lim, threeDocs(), b.k, []int{1, 2}, 0, func(e *env, w *ref.World, idx int) {
+	x.sweep("limit", lim, threeDocs(), b.k, 1, []int{1, 2}, 0, func(e *env, w *ref.World, idx int) {
 		if len(w.Tuples) == 0 {
 			return
 		}
@@ -538,7 +540,7 @@ func Run(o *core.Options) int {
 	if b.k3Stride > 0 {
 		k3 := every(reps, b.k3Stride)
 		r.Set("k3_sweep_models", len(k3))
-		x.sweep("k3", k3, ref.DefaultUniverse(), 3, []int{0}, b.k3WorldsPerMod, func(e *env, w *ref.World, idx int) {
+		x.sweep("k3", k3, ref.DefaultUniverse(), 3, 3, []int{0}, b.k3WorldsPerMod, func(e *env, w *ref.World, idx int) {
 			if len(w.Tuples) < 3 {
 				return
 			}
@@ -578,7 +580,6 @@ func replay(o *core.Options, r *core.Report) int {
 		fmt.Println("write:", err)
 		return 2
 	}
-	x := &runner{r}
 	ex := expect(c.World, c.Req)
 	for i := 0; i < 5; i++ {
 		res := e.call(c.Limit, eng, c.Streamed, c.Req.Type, c.Req.Rel, c.Req.Subject, c.Req.ReqCtx, c.CancelAt)
@@ -589,7 +590,5 @@ func replay(o *core.Options, r *core.Report) int {
 			r.Violate(sig, "replayed: "+desc, mkCase(c.World, c.Req, ex, res, eng, c.Limit, c.Streamed, c.CancelAt))
 		}
 	}
-	_ = x
-	_ = strings.Join
 	return r.Finish()
 }
